@@ -12,8 +12,9 @@
    OptStringsOnly and under tyid_wf in OptAnyValue; the *_refuted theorems are
    the witnesses outside tyid_wf.                                          *)
 From Coq Require Import ZArith List String Permutation.
+From V Require Spec.TimestampSpec.
 From V Require Import Base.UString Model.Filters Spec.FilterSpec
-  Proofs.FiltersBasics Proofs.FiltersOpt Proofs.FiltersFs Proofs.FiltersLaws Proofs.FiltersInv Proofs.FiltersAll.
+  Proofs.FiltersBasics Proofs.FiltersOpt Proofs.FiltersFs Proofs.FiltersLaws Proofs.FiltersInv Proofs.FiltersAll Proofs.FiltersCongr Proofs.FiltersTs.
 Import ListNotations.
 
 (* ---- the optimiser never changes the result (DESIGN Appendix A.2) ---- *)
@@ -161,19 +162,32 @@ Print Assumptions fs_more_filters_shrink.
 
 (* ---- attached filters apply: the three ways filters reach a source ---- *)
 
-(* FilterSet.add drops a filter equal (==) to one already present; as long as no
-   two filters differ only in the spelling of a value (1 / True / 1.0), the
-   combined query decides every object exactly as the plain concatenation *)
+(* FilterSet.add drops a filter that is == to one already present (1 == True == 1.0, dicts in any
+   order).  Python's == is an equivalence on values and every operator gives the same answer for ==
+   filter values, so dropping it never changes a verdict: the combined query decides every object
+   exactly as the plain concatenation.  wfv / fl_wf: values are Python values (a dict has each key once). *)
+Theorem value_eq_is_equivalence :
+  (forall x y, wfv x -> wfv y -> py_eq x y = py_eq y x) /\
+  (forall x y z, py_eq x y = true -> py_eq y z = true -> py_eq x z = true).
+Proof. exact (conj py_eq_sym py_eq_trans). Qed.
+Print Assumptions value_eq_is_equivalence.
+
+Theorem equal_filters_same_verdict : forall mode f g o,
+  filter_eqb f g = true -> wfv (fval f) -> wfv (fval g) -> wfv o ->
+  check_filter mode f o = check_filter mode g o.
+Proof. exact check_filter_congr. Qed.
+Print Assumptions equal_filters_same_verdict.
+
 Theorem attached_filters_apply : forall mode q att comp o,
-  no_fuzzy_dups (q ++ att ++ comp) ->
+  fl_wf (q ++ att ++ comp) -> wfv o ->
   all_hold mode (complete_query q att comp) o = all_hold mode (q ++ att ++ comp) o.
-Proof. exact complete_query_verdict. Qed.
+Proof. exact complete_query_verdict_wf. Qed.
 Print Assumptions attached_filters_apply.
 
 Theorem memory_query_is_naive : forall mode data q att comp,
-  no_fuzzy_dups (q ++ att ++ comp) ->
+  fl_wf (q ++ att ++ comp) -> Forall wfv (mem_objects data) ->
   mem_query mode data q att comp = apply_filters mode (q ++ att ++ comp) (mem_objects data).
-Proof. exact mem_query_is_naive. Qed.
+Proof. exact mem_query_is_naive_wf. Qed.
 Print Assumptions memory_query_is_naive.
 
 (* every answer of a filesystem search satisfies every filter of the list it ran with -- no hypothesis *)
@@ -184,10 +198,10 @@ Print Assumptions fs_answers_satisfy_filters.
 
 (* every answer of a source satisfies the query argument, the attached and the composite-passed filters *)
 Theorem source_answers_satisfy_all : forall mode om s q comp r o f,
-  no_fuzzy_dups (q ++ (match s with SMem _ a => a | SFs _ a => a end) ++ comp) ->
+  fl_wf (q ++ (match s with SMem _ a => a | SFs _ a => a end) ++ comp) -> wfv o ->
   source_query mode om s q comp = Ok r -> In o r ->
   In f (q ++ (match s with SMem _ a => a | SFs _ a => a end) ++ comp) -> check_filter mode f o = Ok true.
-Proof. exact source_answers_satisfy. Qed.
+Proof. exact source_answers_satisfy_wf. Qed.
 Print Assumptions source_answers_satisfy_all.
 
 (* a composite hands its own filters down: each of its answers is an answer of a member queried with them *)
@@ -206,10 +220,10 @@ Proof. exact mem_all_versions_answers_lemma. Qed.
 Print Assumptions mem_all_versions_answers.
 
 Theorem fs_all_versions_answers : forall mode om t i att comp r o f,
-  no_fuzzy_dups ([mkf t_id OEq i] ++ att ++ comp) ->
+  fl_wf ([mkf t_id OEq i] ++ att ++ comp) -> wfv o ->
   fs_all_versions mode om t i att comp = Ok r -> In o r ->
   In f ([mkf t_id OEq i] ++ att ++ comp) -> check_filter mode f o = Ok true.
-Proof. exact fs_all_versions_answers_lemma. Qed.
+Proof. exact fs_all_versions_answers_wf. Qed.
 Print Assumptions fs_all_versions_answers.
 
 (* ---- operator semantics ---- *)
@@ -249,6 +263,15 @@ Theorem ts_on_objects : forall mode f t s t',
   check_property mode f (VTime t) = Ok (cmpZ (fop_ f) t t').
 Proof. exact ts_on_objects_lemma. Qed.
 Print Assumptions ts_on_objects.
+
+(* which instant a timestamp string is: a string the filter reader accepts is in canonical shape,
+   passes the strict reader of property C15's specification (Spec/TimestampSpec.v) and denotes
+   exactly the instant the reader returns (counted from 1970 here, from year 1 there) *)
+Theorem timestamp_strings_read_strictly : forall s t, parse_ts s = Some t ->
+  exists secs ds, TimestampSpec.spec_read s = Some (secs, ds) /\
+                  TimestampSpec.denotes (secs, ds) (t + unix_epoch_us)%Z /\ (List.length ds <= 6)%nat.
+Proof. exact parse_ts_strict. Qed.
+Print Assumptions timestamp_strings_read_strictly.
 
 Theorem ts_on_dicts_repaired : forall f xs t s t',
   fval f = VStr s -> parse_ts xs = Some t -> parse_ts s = Some t' -> is_cmp_op (fop_ f) = true ->
